@@ -10,3 +10,6 @@ theories/Spec.vos theories/Spec.vok theories/Spec.required_vos: theories/Spec.v 
 theories/IntSpec.vo theories/IntSpec.glob theories/IntSpec.v.beautified theories/IntSpec.required_vo: theories/IntSpec.v theories/Base.vo theories/Spec.vo theories/Sem.vo
 theories/IntSpec.vio: theories/IntSpec.v theories/Base.vio theories/Spec.vio theories/Sem.vio
 theories/IntSpec.vos theories/IntSpec.vok theories/IntSpec.required_vos: theories/IntSpec.v theories/Base.vos theories/Spec.vos theories/Sem.vos
+theories/AccessHist.vo theories/AccessHist.glob theories/AccessHist.v.beautified theories/AccessHist.required_vo: theories/AccessHist.v 
+theories/AccessHist.vio: theories/AccessHist.v 
+theories/AccessHist.vos theories/AccessHist.vok theories/AccessHist.required_vos: theories/AccessHist.v 
